@@ -232,7 +232,10 @@ def _rand(args):
     tot = sum(v * v for v in s)
     growth = (1.0 + gamma) if solver == "damped" else 3.0
     for k in range(0, K + 1):
-        X = q_to_float(np.asarray(solver_obj(solver, gamma, k, 0.0).compute(q_from_float(A))[0]))
+        Ain = q_from_float(A)
+        if tid % 7 == 3:
+            Ain = np.asmatrix(Ain)          # the argument held as a numpy.matrix: the solvers accept it and return the same iterates
+        X = q_to_float(np.asarray(solver_obj(solver, gamma, k, 0.0).compute(Ain)[0]))
         t, Xm, AX = project(A, X, U, V, s)
         # model trajectory computed by the harness in floating point (non-integer s: TLC checks structure + bounds)
         tm = [(v * v / tot) if tot > 0 else 0.0 for v in s]
